@@ -439,14 +439,18 @@ def reset_caches():
 
     AttributeCollection.cached = None
     AttributeCollection.previous = b''
+    if hasattr(AttributeCollection, 'previous_session'):
+        AttributeCollection.previous_session = None
 
 
-def impl_decode(body, sess, json_too=True):
-    """-> dict(kind=notify|pyerror|eor|upd, ...) as Protocol.read_message sees Message.unpack"""
+def impl_decode(body, sess, json_too=True, fresh=True):
+    """-> dict(kind=notify|pyerror|eor|upd, ...) as Protocol.read_message sees Message.unpack.
+    fresh=False keeps the one-entry AttributeCollection.unpack cache as the previous message left it"""
     from exabgp.bgp.message import Message
     from exabgp.bgp.message.notification import Notify
 
-    reset_caches()
+    if fresh:
+        reset_caches()
     try:
         m = Message.unpack(Message.CODE.UPDATE, bytes(body), sess.neg)
         if m.IS_EOR:
@@ -907,6 +911,64 @@ def expected_rib(pre, exp):
     return rib
 
 
+# ------------------------------------------------------------------------------- repeat pass: what came before must not matter
+
+
+def obs_view(o):
+    """everything that is judged on a single decode: objects, JSON event"""
+    return (impl_canon(o), json.dumps(o.get('json'), sort_keys=True) if 'json' in o else o.get('json_error'))
+
+
+def run_sequence(sess, bodies, memo):
+    """Decode `bodies` in order in ONE process state (the real AttributeCollection.unpack cache live, one Adj-RIB-In).
+    Every position must give what the same body gives when decoded from a fresh state (which the single-decode pass
+    judges against the reference), and the Adj-RIB-In at the end must be the one those fresh decodes build.
+    -> None | (position, what)"""
+    fresh = []
+    for b in bodies:
+        k = (sess.key, bytes(b))
+        if k not in memo:
+            memo[k] = impl_decode(b, sess)
+        fresh.append(memo[k])
+    reset_caches()
+    rig, ref = RibRig(sess), RibRig(sess)
+    for i, b in enumerate(bodies):
+        o = impl_decode(b, sess, fresh=False)
+        rig.feed(o)
+        ref.feed(fresh[i])
+        if obs_view(o) != obs_view(fresh[i]):
+            reset_caches()
+            return (i, f'position {i}: decoded after {i} earlier message(s) {obs_view(o)[0]}; the same body from a fresh state {obs_view(fresh[i])[0]}')
+    reset_caches()
+    if rig.content() != ref.content():
+        return (len(bodies) - 1, f'Adj-RIB-In after the sequence {rig.content()} differs from the one the fresh decodes build {ref.content()}')
+    return None
+
+
+def repeat_pass(candidates, goods, rng, pid):
+    """candidates: list of (sess, body, label); goods: sess.key -> list of well-formed non-MP bodies.
+    Sequences [good; X; X], [X; X], [X; good; X], [X; Y; X].  -> (number of sequences, failures [(sig, what, case)])"""
+    memo, failures, n = {}, [], 0
+    by_sess = collections.defaultdict(list)
+    for sess, body, label in candidates:
+        by_sess[sess.key].append((sess, body, label))
+    for key, items in by_sess.items():
+        for sess, x, label in items:
+            g = rng.choice(goods[key]) if goods.get(key) else None
+            y = rng.choice(items)[1]
+            seqs = [('X;X', [x, x]), ('X;Y;X', [x, y, x])]
+            if g is not None:
+                seqs += [('good;X;X', [g, x, x]), ('X;good;X', [x, g, x])]
+            for shape, bodies in seqs:
+                n += 1
+                bad = run_sequence(sess, bodies, memo)
+                if bad:
+                    failures.append((f'{pid}:history-dependent-decode:{shape}', bad[1][:1500],
+                                     {'session': key, 'shape': shape, 'what_is_X': label, 'position': bad[0],
+                                      'sequence_hex': [bytes(b).hex() for b in bodies]}))
+    return n, failures
+
+
 # ------------------------------------------------------------------------------- EOR shapes
 
 
@@ -1077,6 +1139,17 @@ def check(tier, seed):
                 rib_bad.append((i, sig_for(c, d).replace('C02:', 'C02:rib-in:'), '; '.join(d)[:800]))
                 break
 
+    # ---- repeat pass: sequences in one process state, every position judged as the single decode of that body
+    n_x = 70 if tier == 'quick' else 1500
+    pool = [c for c in cases]
+    picked = [c for c in pool if c['kind'] != 'wellformed'][:40] + rng.sample([c for c in pool if c['kind'] == 'wellformed'], min(n_x, n))
+    goods = collections.defaultdict(list)
+    for c in cases[:n]:
+        d = c['desc']
+        if c['impl']['kind'] == 'upd' and d['nlri'] and not d['mp_reach'] and not d['mp_unreach'] and len(goods[c['sess'].key]) < 8:
+            goods[c['sess'].key].append(c['body'])
+    n_seq, rep_bad = repeat_pass([(c['sess'], c['body'], c['kind']) for c in picked], goods, rng, 'C02')
+
     def first(lst):
         if not lst:
             return ''
@@ -1098,6 +1171,17 @@ def check(tier, seed):
                    f'{len(prop_bad)} failing; first: {prop_bad[0] if prop_bad else ""}'[:2500])
     run.obligation(f'property oracle: Adj-RIB-In after the UPDATE = (before - withdrawn) + announced, attributes as the reference, on {n_rib} bodies',
                    not rib_bad, f'{len(rib_bad)} failing; first: {rib_bad[0] if rib_bad else ""}'[:2500])
+
+    run.obligation('repeat pass: in one process state (AttributeCollection.unpack cache live, one Adj-RIB-In) every position of the '
+                   'sequences [good;X;X] [X;X] [X;good;X] [X;Y;X] decodes as the same body decoded from a fresh state',
+                   not rep_bad, f'{n_seq} sequences; {len(rep_bad)} failing; first: {rep_bad[0] if rep_bad else ""}'[:2500])
+    rep_seen = set()
+    for sig, what, case in rep_bad:
+        key = ':'.join(sig.split(':')[:2])
+        if key not in rep_seen:
+            rep_seen.add(key)
+            run.fail_case(key, what, case)
+    run.coverage['repeat_pass_sequences'] = n_seq
 
     seen = set()
     for i, sig, what in prop_bad + rib_bad:
